@@ -444,11 +444,81 @@ def bits_term(b):
 def build(tier, seed):
     del LEMMA_HYPS[:]
     plan = Plan(PID, level="proof")
+    plan.explanation = (
+        "The real bodies of bit_driver, edge_driver, maxcut, max_independent_set, min_vertex_cover, max_clique (qaoa/cost.py), x_mixer "
+        "(qaoa/mixers.py) and LinearCombination.__add__ / __mul__ (= __rmul__) are executed symbolically (E1) for graphs whose node and edge "
+        "lists are sequences of SYMBOLIC length and for an arbitrary bitstring (a ghost set of nodes). Operators are records of Pauli words; "
+        "the diagonal entry of a coefficient/operator list pair is the snoc-defined EV. edge_driver: one loop invariant per reward set on the "
+        "real `for e in graph_edges` loops -- EV(coeffs, ops) == sum over the edges processed so far of the documented energy "
+        "|reward|/4 - [colouring in reward], with the counts of 00 / mixed / 11 edges as independent snoc-defined counters; the 0- and "
+        "4-element reward sets give the constant |V|. bit_driver: EV == (-1)^(b+1) * (|wires| - 2 * #ones), ValueError iff b not in {0, 1}. "
+        "LinearCombination: EV(a + b) == EV(a) + EV(b) and EV(c * a) == c * EV(a) on the real bodies (concatenation / elementwise scaling "
+        "models of qp.math). The four optimisation problems are then executed modularly (callee contracts, not bodies) and their diagonal is "
+        "proved equal to an objective written with counts only: maxcut == -(cut edges); MIS / clique == |V| - 2*chosen (constrained) or "
+        "3*(violated edges) - 2*chosen + |V| - 3/4*|E| (unconstrained, on the complement graph for max_clique); MVC == 2*chosen - |V| or "
+        "3*(uncovered edges) + 2*chosen - |V| - 3/4*|E|; the returned mixer is the documented builder applied to the documented argument. "
+        "Laws about EV (additivity over concatenation, homogeneity, constant coefficient lists) and about the counters are base + step lemma "
+        "pairs. Counter-models are replayed on the real functions with real networkx graphs, the diagonal being evaluated term by term from "
+        "terms(). Bounded stand-ins (never counted as proof): random graphs of <= 6 nodes, networkx and rustworkx, weighted and unweighted, "
+        "every bitstring, diagonal of qp.matrix against plain-python objectives, and the mixers against numpy.kron reference matrices.")
+    plan.trusted_base = [
+        "vf/pyvc encoder (Python subset semantics)", "z3: sequences, linear real/integer arithmetic, arrays, datatypes, EUF",
+        "induction over finite sequences (meta-level) for every base + step lemma pair",
+        "the defining equations of EV / rep / scaled / ops1 / ops2 / ones / n00 / nmixed / n11 in this file",
+        "diagonal entry of a word of I / Z factors at a bitstring == (-1)^(number of Z factors on 1-bits) (DIAG); a LinearCombination "
+        "denotes sum_k coeffs[k] * ops[k]",
+        "a finite sum does not depend on the order of its terms (the objectives are sums over the edge / node SEQUENCES in iteration order)"]
+    plan.assumptions = [
+        "A-float-as-real: coefficients (0.25, 0.5, -0.5, 3 * 0.25 ..., all dyadic) are real numbers; binary64 rounding is not modelled",
+        "graph nodes are opaque hashable labels; networkx `graph.edges` iterates 2-tuples of nodes, `graph.nodes()` iterates the nodes (stub "
+        "record Graph(_nodes, edges)); the proofs hold for ARBITRARY node / edge sequences (duplicates, self-loops, endpoints outside the "
+        "node list included), a superset of well-formed graphs",
+        "the bitstring is a set of nodes (ghost parameter `bits` added to the signature of the function under contract; never read by the body)",
+        "reward lists are concrete python lists WITHOUT duplicates (one case per reward set, in the element orders used by cost.py and one other)"]
+    plan.assumed_contracts = [
+        "LinearCombination(coeffs, ops) (constructor, stub): ValueError when the lengths differ, otherwise stores both lists and denotes "
+        "sum_k coeffs[k]*ops[k]; the cached _pauli_rep / grouping data are consistent with the lists (only the bounded qp.matrix stand-ins see them)",
+        "Z(w) / Identity(w) / X(w) and `A @ B` of two single-wire operators build the Pauli word records Op(n, kinds, wires)",
+        "qp.math.concatenate([a, b], axis=0) of two coefficient lists is their concatenation; qp.math.multiply(c, a) is elementwise scaling; "
+        "copy(list) is a shallow copy; qp.math.cast_like([1.0], .) is [1.0]",
+        "networkx.complement(G): same nodes, edge list a function of G's node and edge lists (COMPL, uninterpreted): max_clique's objective "
+        "is stated over the complement's edge list without saying which pairs it contains",
+        "python set(list of str) / list(set): only the length and the element of a singleton are used (any other indexing is refused)",
+        "Wires(seq) of distinct labels iterates them in order (x_mixer)",
+        "x_mixer / bit_flip_mixer inside cost.py are opaque builders (their results are compared by builder name and arguments)"]
+    plan.unverified = [
+        "rustworkx inputs (sorted(graph.edge_list()), get_nvalue indirection): only the bounded native stand-ins cover the is_rx path",
+        "max_weight_cycle, loss_hamiltonian, cycle_mixer, net_flow_constraint, out_flow_constraint (cycle.py): not covered",
+        "xy_mixer, bit_flip_mixer: only the bounded native stand-ins (reference matrices)",
+        "reward lists with repeated entries (edge_driver tests len(reward) before deduplicating)",
+        "the docstring FORMULAS of the unconstrained Hamiltonians (3 * sum(ZiZj -+ Zi -+ Zj)): the code builds 3 * edge_driver = 3/4 * sum(...); "
+        "the contract follows the composition 3 * edge_driver + bit_driver with edge_driver's documented energies",
+        "grouping_indices set by the builders; the cached pauli_rep of the results; LinearCombination + number / non-operator operands",
+        "that the minimisers of the objectives are the optimal cuts / independent sets / covers / cliques (combinatorics, not code)"]
+    plan.size_bounds = ["bounded native stand-ins: 12 (quick) / 60 (thorough) graphs of <= 6 nodes (mixers <= 5), all 2^n bitstrings; every third graph also with edge weights"]
+    plan.dropped = ["docstrings, annotations, f-string messages; `import networkx` statements; the TYPE_CHECKING block"]
     add_lemmas(plan)
     add_linear_combination(plan, tier)
     add_bit_driver(plan, tier)
     add_edge_driver(plan, tier)
     add_problems(plan, tier)
+    add_mixers(plan, tier)
+    add_edge_driver_rx(plan, tier)
+    add_bounded_native(plan, tier, seed)
+
+    def hyps_consistent(snapshot=tuple(LEMMA_HYPS)):
+        bad = []
+        for name, asm in snapshot:
+            sv = z3.Solver()
+            set_budget(sv, 4000)
+            sv.add(*asm)
+            if sv.check() == z3.unsat:
+                bad.append(name)
+        if bad:
+            return Outcome(FAULT, "z3", f"contradictory lemma hypotheses: {bad}")
+        return Outcome(DISCHARGED, "z3", f"hypotheses of {len(snapshot)} lemmas are not refutable")
+    plan.add(Obligation(f"{PID}/lemma-hypotheses-are-consistent", "lemma", hyps_consistent, bounded=True, timeout=240,
+                        sample="no lemma is proved from contradictory hypotheses"))
     return plan
 
 
@@ -638,7 +708,7 @@ def cost_world(modular=None, extra=None):
     def real_lc(f):
         import pennylane as qp
         return qp.ops.LinearCombination([fl(c) for c in f["_coeffs"]], list(f["_ops"]))
-    w.stub_realize = {"Op": real_op, "LinearCombination": real_lc, "Graph": real_nx_graph}
+    w.stub_realize = {"Op": real_op, "LinearCombination": real_lc, "Graph": real_nx_graph, "PyGraph": real_rx_graph}
     return w
 
 
@@ -843,6 +913,22 @@ VERIFIED_REWARDS = [frozenset(r) for r in ([], ["00"], ["11"], ["00", "11"], ["1
 COMPL = z3.Function("complement_edges", ESEQ, LSEQ, ESEQ)          # edge list of networkx.complement(G) as a function of G's edge and node lists
 
 
+RX_VERIFIED_REWARDS = [frozenset(r) for r in (["00"], ["10", "01"], ["10", "01", "00"], ["11", "10", "01"])]
+
+
+def rx_wellformed(graph):
+    el, ns = graph.f["_edge_list"].term, graph.f["_nodes"].term
+    k = z3.Int("k!wf")
+    return z3.ForAll([k], z3.Implies(z3.And(k >= 0, k < z3.Length(el)), in_range_ij(el[k], ns)))
+
+
+def in_range_ij(ij, ns):
+    srt = ij.sort()
+    a, b = srt.accessor(0, 0)(ij), srt.accessor(0, 1)(ij)
+    n = z3.Length(ns)
+    return z3.And(a >= 0, a < n, b >= 0, b < n)
+
+
 def fresh_lc(it, world, name):
     ctx = it.ctx
     c = SeqV(z3.Const(ctx.fresh_name(name + ".coeffs"), RS), Float)
@@ -861,13 +947,21 @@ def problem_world():
         """contract of edge_driver as proved above (networkx graphs, duplicate-free reward lists)"""
         w = holder["w"]
         graph, reward = args
-        if not (isinstance(graph, Rec) and graph.cls.name == "Graph"):
-            raise Unsupp("edge_driver contract: networkx graph expected")
+        if not (isinstance(graph, Rec) and graph.cls.name in ("Graph", "PyGraph")):
+            raise Unsupp("edge_driver contract: graph expected")
+        is_rx = graph.cls.name == "PyGraph"
+        if is_rx and frozenset(reward.items if isinstance(reward, PyList) else ()) not in RX_VERIFIED_REWARDS:
+            raise Unsupp(f"edge_driver contract (rustworkx) does not cover reward {reward!r}")
         if not (isinstance(reward, PyList) and all(isinstance(x, str) for x in reward.items)) or len(set(reward.items)) != len(reward.items) \
                 or frozenset(reward.items) not in VERIFIED_REWARDS:
             raise Unsupp(f"edge_driver contract does not cover reward {reward!r}")
         b = bits_of(it)
-        es, ns = graph.f["edges"].term, graph.f["_nodes"].term
+        ns = graph.f["_nodes"].term
+        if is_rx:
+            it.ctx.prove(rx_wellformed(graph), "pre:edge_driver[rustworkx node indices are 0..n-1]")
+            es = EMAP(ns, SORTED(graph.f["_edge_list"].term))
+        else:
+            es = graph.f["edges"].term
         r, c, o = fresh_lc(it, w, "edge_driver")
         if len(reward.items) in (0, 4):
             it.ctx.assume(EV(c, o, b) == z3.ToReal(z3.Length(ns)))
@@ -952,6 +1046,8 @@ def add_problems(plan, tier):
                 out.append(isinstance(x, int) and x == y)
             elif isinstance(y, z3.ExprRef):          # a node sequence
                 out.append(x.term == y if isinstance(x, SeqV) else False)
+            elif isinstance(y, Rec):                 # the very graph object that was passed in (rustworkx)
+                out.append(S.same_object(x, y))
             else:                                    # (edges term, nodes term) of a graph record
                 out.append(z3.And(x.f["edges"].term == y[0], x.f["_nodes"].term == y[1]) if isinstance(x, Rec) and x.cls.name == "Graph" else False)
         return And(*out) if out else True
@@ -959,36 +1055,70 @@ def add_problems(plan, tier):
     def counts(o, complement=False):
         """native: (|V|, |E|, n00, cut, n11, chosen) of the (complement) graph at the bitstring"""
         import networkx as nx
+        if not isinstance(o.graph, nx.Graph):
+            nodes = list(o.graph.nodes())
+            edges = [(nodes[i], nodes[j]) for i, j in o.graph.edge_list()]
+            n00, nmx, n11 = colour_counts_native(edges, o.bits)
+            return len(nodes), len(edges), n00, nmx, n11, sum(1 for v in nodes if v in o.bits)
         g = nx.complement(o.graph) if complement else o.graph
         edges = list(g.edges)
         n00, nmx, n11 = colour_counts_native(edges, o.bits)
         return g.number_of_nodes(), len(edges), n00, nmx, n11, sum(1 for v in g.nodes if v in o.bits)
 
-    def problem(qual, label, constrained, objective_sym, objective_nat, mixer_sym, mixer_nat, complement=False):
-        params = {"graph": GR, "bits": SetT(Label)}
+    def rx_repair(rng, m):
+        m = dict(m)
+        g = dict(m["graph"])
+        nodes = []
+        for x in g["_nodes"]:
+            if x not in nodes:
+                nodes.append(x)
+        n = len(nodes)
+        g["_nodes"] = nodes
+        g["_edge_list"] = [(int(a) % n, int(b) % n) for a, b in g["_edge_list"]] if n else []
+        m["graph"] = g
+        return m
+
+    def problem(qual, label, constrained, objective_sym, objective_nat, mixer_sym, mixer_nat, complement=False, rx=False):
+        GT = RecT("PyGraph") if rx else GR
+        params = {"graph": GT, "bits": SetT(Label)}
         if constrained is not None:
-            params = {"graph": GR, "constrained": T("const", constrained), "bits": SetT(Label)}
+            params = {"graph": GT, "constrained": T("const", constrained), "bits": SetT(Label)}
+
+        def edge_term(o):
+            if rx:
+                return EMAP(o.graph.f["_nodes"].term, SORTED(o.graph.f["_edge_list"].term))
+            return o.graph.f["edges"].term
+
+        def req(a):
+            if not rx:
+                return True
+            if isinstance(a.graph, Rec):
+                return rx_wellformed(a.graph)
+            n = len(a.graph.nodes())
+            return list(a.graph.node_indices()) == list(range(n)) and all(0 <= i < n and 0 <= j < n for i, j in a.graph.edge_list())
 
         def ens(o, r, nw):
             if isinstance(o.graph, Rec):
                 if not (isinstance(r, tuple) and len(r) == 2 and isinstance(r[0], Rec) and r[0].cls.name == "LinearCombination"):
                     return False
-                b, es, ns = o.bits.term, o.graph.f["edges"].term, o.graph.f["_nodes"].term
+                b, es, ns = o.bits.term, edge_term(o), o.graph.f["_nodes"].term
                 ges = COMPL(es, ns) if complement else es
                 rc, ro = lc_terms(w, r[0])
-                return z3.And(EV(rc, ro, b) == objective_sym(ges, ns, b), z3.Length(rc) == z3.Length(ro), mixer_sym(r[1], es, ns, ges))
+                return z3.And(EV(rc, ro, b) == objective_sym(ges, ns, b), z3.Length(rc) == z3.Length(ro),
+                              mixer_sym(r[1], es, ns, o.graph if rx else ges))
             nv, ne, n00, nmx, n11, chosen = counts(o, complement)
             return close(native_ev(r[0], o.bits), objective_nat(nv, ne, n00, nmx, n11, chosen)) and same_hamiltonian(r[1], mixer_nat(o.graph))
 
         def ax(o, r, nw):
-            b, es, ns = o.bits.term, o.graph.f["edges"].term, o.graph.f["_nodes"].term
+            b, es, ns = o.bits.term, edge_term(o), o.graph.f["_nodes"].term
             ges = COMPL(es, ns) if complement else es
             return [counts_total(ges, b), ev_const_identity_pairs(R("-1/2"), ges, b), z3.Extract(ges, 0, z3.Length(ges)) == ges]
 
         def call(mod, a):
             f = getattr(mod, qual)
             return f(a["graph"]) if constrained is None else f(a["graph"], constrained=a["constrained"])
-        c = Case(label, params, ensures=ens, axioms=ax, must_return=lambda o: True, kwargs_map=GHOST, native_call=call)
+        c = Case(label, params, requires=req, ensures=ens, axioms=ax, must_return=lambda o: True, kwargs_map=GHOST, native_call=call,
+                 native_gen=rx_repair if rx else None)
         c.interp_cls = QInterp
         return c
 
@@ -999,7 +1129,7 @@ def add_problems(plan, tier):
     x_nat = lambda g: __import__("pennylane").qaoa.x_mixer(g.nodes())
 
     def bf_sym(bb, complement=False):
-        return lambda m, es, ns, ges: is_mixer(m, "bit_flip_mixer", (ges, ns), bb)
+        return lambda m, es, ns, ges: is_mixer(m, "bit_flip_mixer", ges if isinstance(ges, Rec) else (ges, ns), bb)
 
     def bf_nat(bb, complement=False):
         def f(g):
@@ -1045,6 +1175,20 @@ def add_problems(plan, tier):
         problem("min_vertex_cover", "unconstrained: diagonal == 3*(uncovered edges) + 2*(chosen vertices) - |V| - 3/4*|E|; mixer == x_mixer(nodes)", False,
                 lambda es, ns, b: 3 * tr(N00(es, b)) + 2 * tr(ONES(ns, b)) - tr(z3.Length(ns)) - Q * tr(z3.Length(es)),
                 lambda nv, ne, n00, nmx, n11, ch: 3 * n00 + 2 * ch - nv - 0.75 * ne, x_sym, x_nat)]))
+    contracts[1].cases += [
+        problem("max_independent_set", "rustworkx, constrained: diagonal == |V| - 2*(number of chosen vertices); mixer == bit_flip_mixer(graph, 0)", True,
+                lambda es, ns, b: tr(z3.Length(ns) - 2 * ONES(ns, b)), lambda nv, ne, n00, nmx, n11, ch: nv - 2 * ch, bf_sym(0), bf_nat(0), rx=True),
+        problem("max_independent_set", "rustworkx, unconstrained: diagonal == 3*(edges inside the selection) - 2*(chosen vertices) + |V| - 3/4*|E|; "
+                "mixer == x_mixer(nodes)", False,
+                lambda es, ns, b: 3 * tr(N11(es, b)) - 2 * tr(ONES(ns, b)) + tr(z3.Length(ns)) - Q * tr(z3.Length(es)),
+                lambda nv, ne, n00, nmx, n11, ch: 3 * n11 - 2 * ch + nv - 0.75 * ne, x_sym, x_nat, rx=True)]
+    contracts[2].cases += [
+        problem("min_vertex_cover", "rustworkx, constrained: diagonal == 2*(number of chosen vertices) - |V|; mixer == bit_flip_mixer(graph, 1)", True,
+                lambda es, ns, b: -tr(z3.Length(ns) - 2 * ONES(ns, b)), lambda nv, ne, n00, nmx, n11, ch: 2 * ch - nv, bf_sym(1), bf_nat(1), rx=True),
+        problem("min_vertex_cover", "rustworkx, unconstrained: diagonal == 3*(uncovered edges) + 2*(chosen vertices) - |V| - 3/4*|E|; "
+                "mixer == x_mixer(nodes)", False,
+                lambda es, ns, b: 3 * tr(N00(es, b)) + 2 * tr(ONES(ns, b)) - tr(z3.Length(ns)) - Q * tr(z3.Length(es)),
+                lambda nv, ne, n00, nmx, n11, ch: 3 * n00 + 2 * ch - nv - 0.75 * ne, x_sym, x_nat, rx=True)]
     contracts.append(GhostFn(w, "max_clique", [
         problem("max_clique", "constrained: diagonal == |V| - 2*(number of chosen vertices); mixer == bit_flip_mixer(complement graph, 0)", True,
                 lambda es, ns, b: tr(z3.Length(ns) - 2 * ONES(ns, b)), lambda nv, ne, n00, nmx, n11, ch: nv - 2 * ch, bf_sym(0, True), bf_nat(0, True),
@@ -1057,3 +1201,388 @@ def add_problems(plan, tier):
         for ob in obligations_for(PID, fc, tier):
             plan.add(ob)
         plan.fn_under_contract(COST, fc.qualname)
+
+
+# ======================================================================================================================================
+# mixers.py: x_mixer returns the documented operator (structure of the coefficient / operator lists)
+def add_mixers(plan, tier):
+    fields_lc = {"_coeffs": SeqT(Float), "_ops": SeqT(OPT), "grouping_indices": NoneT}
+
+    def m_wires(it, args, kw):
+        (v,) = args
+        if not isinstance(v, SeqV):
+            raise Unsupp("Wires of a non-sequence")
+        return SeqV(v.term, v.elem, True)
+    w = World(MIX, functions=["_validate_graph"],
+              stubs={"Operator": (STUB_SRC, {}), "Op": (STUB_SRC, OP_FIELDS), "LinearCombination": (STUB_SRC, fields_lc)},
+              extra_builtins={"X": pauli_builtin(1), "Y": pauli_builtin(2), "Z": pauli_builtin(3), "Identity": pauli_builtin(0), "Wires": m_wires})
+
+    def ens(o, r, nw):
+        if isinstance(o.wires, SeqV):
+            if not isinstance(r, Rec):
+                return False
+            ws = o.wires.term
+            rc, ro = lc_terms(w, r)
+            return z3.And(rc == REP(R(1), z3.Length(ws)), ro == OPS1(z3.IntVal(1), ws), z3.Length(rc) == z3.Length(ws), z3.Length(ro) == z3.Length(ws))
+        import pennylane as qp
+        cs, ops = r.terms()
+        return (len(cs) == len(ops) == len(o.wires) and all(float(c) == 1.0 for c in cs)
+                and all(isinstance(p, qp.X) and list(p.wires) == [x] for p, x in zip(ops, o.wires)))
+
+    def c_inv(v):
+        return z3.And(st(w, v.comp_r, Float) == REP(R(1), v.comp_i), z3.Length(st(w, v.comp_r, Float)) == v.comp_i)
+
+    def c_ax(v):
+        i = to_int_term(v.comp_i)
+        return rep_def(R(1), i) + rep_def(R(1), i - 1)
+
+    def x_inv(v):
+        ws = v.old.wires.term
+        return z3.And(st(w, v.comp_r, OPT) == OPS1(z3.IntVal(1), z3.Extract(ws, 0, v.comp_i)), z3.Length(st(w, v.comp_r, OPT)) == v.comp_i)
+
+    def x_ax(v):
+        ws = v.old.wires.term
+        i = to_int_term(v.comp_i)
+        out = [z3.Extract(ws, 0, 0) == L_EMPTY, OPS1(z3.IntVal(1), L_EMPTY) == O_EMPTY]
+        for k in (i - 1, i):
+            out.append(snoc_slice(ws, k))
+            out.append(z3.Implies(z3.And(k >= 0, k < z3.Length(ws)), z3.And(*ops1_def(1, z3.Extract(ws, 0, k), ws[k]))))
+        return out
+
+    def distinct_wires(rng, m):
+        m = dict(m)
+        seen = []
+        for x in m["wires"]:
+            if x not in seen:
+                seen.append(x)
+        m["wires"] = seen           # Wires(...) rejects duplicates (graph nodes are distinct)
+        return m
+    fc = FnContract(w, "x_mixer", [Case("wires of any length: coefficients all 1, k-th operator == X(wires[k])", {"wires": SeqT(Label)},
+                                        ensures=ens, axioms=lambda o, r, nw: [z3.Extract(o.wires.term, 0, z3.Length(o.wires.term)) == o.wires.term],
+                                        must_return=lambda o: True, native_gen=distinct_wires,
+                                        loops={"comp0": LoopSpec(c_inv, types={"comp_r": SeqT(Float)}, axioms=c_ax),
+                                               "comp1": LoopSpec(x_inv, types={"comp_r": SeqT(OPT)}, axioms=x_ax)})])
+    for ob in obligations_for(PID, fc, tier):
+        plan.add(ob)
+    plan.fn_under_contract(MIX, "x_mixer")
+
+
+# ======================================================================================================================================
+# bounded native stand-in: the REAL builders on random small graphs (networkx and rustworkx), diagonal of qp.matrix at EVERY bitstring
+# against the objective written as plain python counting; the mixers against reference matrices built with numpy.kron
+def random_graphs(rng, count, max_nodes=6):
+    """(labels, edge list) -- includes edgeless, complete, weighted (ignored attribute), string-labelled graphs"""
+    out = [(list(range(1)), []), (list(range(4)), []), (list(range(4)), list(itertools.combinations(range(4), 2))), (["a", "b", "c"], [("a", "b"), ("b", "c")]),
+           ([3, 1, 2, 0], [(3, 1), (1, 0), (0, 2)])]
+    while len(out) < count:
+        n = rng.randint(1, max_nodes)
+        labels = list(range(n))
+        rng.shuffle(labels)
+        p = rng.choice([0.2, 0.5, 0.8])
+        out.append((labels, [e for e in itertools.combinations(labels, 2) if rng.random() < p]))
+    return out[:count]
+
+
+def build_graph(kind, labels, edges, weighted=False):
+    if kind == "nx":
+        import networkx as nx
+        g = nx.Graph()
+        g.add_nodes_from(labels)
+        for k, (a, b) in enumerate(edges):
+            g.add_edge(a, b, **({"weight": 0.5 + k} if weighted else {}))
+        return g
+    import rustworkx as rx
+    g = rx.PyGraph()
+    g.add_nodes_from(labels)
+    g.add_edges_from([(labels.index(a), labels.index(b), (0.5 + k) if weighted else "") for k, (a, b) in enumerate(edges)])
+    return g
+
+
+def diag_of(H, labels):
+    import numpy as np
+    import pennylane as qp
+    if len(H.terms()[0]) == 0:
+        # an edgeless graph gives LinearCombination([], []): the empty sum is the zero operator (qp.matrix raises TypeError on it --
+        # reported as an observation, not part of this property)
+        return np.zeros(2 ** len(labels))
+    m = qp.matrix(H, wire_order=labels)
+    d = np.diag(m)
+    if not np.allclose(m, np.diag(d)):
+        raise ValueError("cost Hamiltonian is not diagonal")
+    return np.real(d)
+
+
+def bitstrings(labels):
+    n = len(labels)
+    for idx in range(2 ** n):
+        yield idx, {labels[j] for j in range(n) if (idx >> (n - 1 - j)) & 1}
+
+
+def pauli_ref(n, factors):
+    """kron over positions 0..n-1 of the given single-qubit matrices (identity elsewhere)"""
+    import numpy as np
+    P = {"I": np.eye(2), "X": np.array([[0, 1], [1, 0]]), "Y": np.array([[0, -1j], [1j, 0]]), "Z": np.diag([1, -1])}
+    m = np.array([[1.0 + 0j]])
+    for j in range(n):
+        m = np.kron(m, P[factors.get(j, "I")])
+    return m
+
+
+def add_bounded_native(plan, tier, seed):
+    import functools
+    count = 12 if tier == "quick" else 60
+
+    def graphs():
+        rng = random.Random(1000 + seed)
+        return random_graphs(rng, count)
+
+    def complement_edges(labels, edges):
+        es = {frozenset(e) for e in edges}
+        return [e for e in itertools.combinations(labels, 2) if frozenset(e) not in es]
+
+    def z(v, ones):
+        return -1 if v in ones else 1
+
+    def colouring(e, ones):
+        return ("1" if e[0] in ones else "0") + ("1" if e[1] in ones else "0")
+
+    def obj_edge(reward):
+        rs = set(reward)
+        if len(rs) in (0, 4):
+            return lambda labels, edges, ones: len(labels)
+        return lambda labels, edges, ones: sum(len(rs) / 4 - (1 if colouring(e, ones) in rs else 0) for e in edges)
+
+    def violated(edges, ones):          # edges with both endpoints chosen
+        return sum(1 for a, b in edges if a in ones and b in ones)
+
+    def uncovered(edges, ones):
+        return sum(1 for a, b in edges if a not in ones and b not in ones)
+    import pennylane as qp
+    Q = qp.qaoa
+    targets = {
+        "bit_driver": [(f"b={b}", lambda g, labels, b=b: Q.bit_driver(labels, b), lambda labels, edges, ones, b=b: (-1) ** (b + 1) * sum(z(v, ones) for v in labels))
+                       for b in (0, 1)],
+        "edge_driver": [("reward={" + ",".join(r) + "}", lambda g, labels, r=r: Q.edge_driver(g, list(r)), obj_edge(r))
+                        for r in ([], ["00"], ["11"], ["00", "11"], ["10", "01"], ["10", "01", "00"], ["11", "10", "01"], ["00", "01", "10", "11"])],
+        "maxcut": [("", lambda g, labels: Q.maxcut(g)[0], lambda labels, edges, ones: -sum(1 for a, b in edges if (a in ones) != (b in ones)))],
+        "max_independent_set": [
+            ("constrained", lambda g, labels: Q.max_independent_set(g, constrained=True)[0], lambda labels, edges, ones: len(labels) - 2 * len(ones)),
+            ("unconstrained", lambda g, labels: Q.max_independent_set(g, constrained=False)[0],
+             lambda labels, edges, ones: 3 * violated(edges, ones) - 2 * len(ones) + len(labels) - 0.75 * len(edges))],
+        "min_vertex_cover": [
+            ("constrained", lambda g, labels: Q.min_vertex_cover(g, constrained=True)[0], lambda labels, edges, ones: 2 * len(ones) - len(labels)),
+            ("unconstrained", lambda g, labels: Q.min_vertex_cover(g, constrained=False)[0],
+             lambda labels, edges, ones: 3 * uncovered(edges, ones) + 2 * len(ones) - len(labels) - 0.75 * len(edges))],
+        "max_clique": [
+            ("constrained", lambda g, labels: Q.max_clique(g, constrained=True)[0], lambda labels, edges, ones: len(labels) - 2 * len(ones)),
+            ("unconstrained", lambda g, labels: Q.max_clique(g, constrained=False)[0],
+             lambda labels, edges, ones: 3 * violated(complement_edges(labels, edges), ones) - 2 * len(ones) + len(labels)
+             - 0.75 * len(complement_edges(labels, edges)))],
+    }
+
+    def cost_ob(fname, variants):
+        def fn():
+            import numpy as np
+            n_checked = 0
+            for gi, (labels, edges) in enumerate(graphs()):
+                for kind in ("nx", "rx"):
+                    for weighted in ((False, True) if gi % 3 == 2 else (False,)):
+                        g = build_graph(kind, labels, edges, weighted)
+                        for vlab, build_h, objective in variants:
+                            d = diag_of(build_h(g, labels), labels)
+                            for idx, ones in bitstrings(labels):
+                                want = objective(labels, edges, ones)
+                                n_checked += 1
+                                if not close(float(d[idx]), float(want)):
+                                    return Outcome(REFUTED, "native", f"{fname} [{vlab}] on a {kind} graph: diagonal entry differs from the objective",
+                                                   witness=dict(graph_kind=kind, nodes=[str(x) for x in labels], edges=[[str(a), str(b)] for a, b in edges],
+                                                                bitstring=format(idx, f"0{len(labels)}b"), variant=vlab),
+                                                   replay=dict(confirmed=True, observed=float(d[idx]), expected=float(want),
+                                                               note="native run of the real builder; diagonal of qp.matrix"))
+            return Outcome(DISCHARGED, "native", f"{n_checked} (graph, variant, bitstring) combinations agree")
+        return Obligation(f"{PID}/cost:{fname}/bounded-native[{count} graphs of <= 6 nodes, networkx + rustworkx, all bitstrings]", "bounded", fn,
+                          bounded=True, func=(COST, fname), timeout=600,
+                          sample="diagonal of qp.matrix(cost Hamiltonian) == objective counted in plain python, at every bitstring")
+    for fname, variants in targets.items():
+        plan.add(cost_ob(fname, variants))
+
+    # ---- mixers against reference matrices ---------------------------------------------------------------------------------------------
+    def ref_x(labels, edges):
+        return sum(pauli_ref(len(labels), {j: "X"}) for j in range(len(labels)))
+
+    def ref_xy(labels, edges):
+        import numpy as np
+        n = len(labels)
+        tot = np.zeros((2 ** n, 2 ** n), dtype=complex)
+        for a, b in edges:
+            i, j = labels.index(a), labels.index(b)
+            tot = tot + 0.5 * (pauli_ref(n, {i: "X", j: "X"}) + pauli_ref(n, {i: "Y", j: "Y"}))
+        return tot
+
+    def ref_bit_flip(bb):
+        def f(labels, edges, complement=False):
+            import numpy as np
+            n = len(labels)
+            if complement:
+                edges = complement_edges(labels, edges)
+            tot = np.zeros((2 ** n, 2 ** n), dtype=complex)
+            for v in labels:
+                nb = [b if a == v else a for a, b in edges if v in (a, b)]
+                m = pauli_ref(n, {labels.index(v): "X"}) / 2 ** len(nb)
+                for u in nb:
+                    m = m @ (np.eye(2 ** n) + (-1) ** bb * pauli_ref(n, {labels.index(u): "Z"}))
+                tot = tot + m
+            return tot
+        return f
+    mixer_targets = {
+        (MIX, "x_mixer"): [("", lambda g, labels: Q.x_mixer(labels), ref_x)],
+        (MIX, "xy_mixer"): [("", lambda g, labels: Q.xy_mixer(g), ref_xy)],
+        (MIX, "bit_flip_mixer"): [(f"b={bb}", lambda g, labels, bb=bb: Q.bit_flip_mixer(g, bb), ref_bit_flip(bb)) for bb in (0, 1)],
+        (COST, "maxcut"): [("recommended mixer", lambda g, labels: Q.maxcut(g)[1], ref_x)],
+        (COST, "max_independent_set"): [("constrained mixer", lambda g, labels: Q.max_independent_set(g, True)[1], ref_bit_flip(0)),
+                                        ("unconstrained mixer", lambda g, labels: Q.max_independent_set(g, False)[1], ref_x)],
+        (COST, "min_vertex_cover"): [("constrained mixer", lambda g, labels: Q.min_vertex_cover(g, True)[1], ref_bit_flip(1)),
+                                     ("unconstrained mixer", lambda g, labels: Q.min_vertex_cover(g, False)[1], ref_x)],
+        (COST, "max_clique"): [("constrained mixer", lambda g, labels: Q.max_clique(g, True)[1],
+                                lambda labels, edges: ref_bit_flip(0)(labels, edges, complement=True)),
+                               ("unconstrained mixer", lambda g, labels: Q.max_clique(g, False)[1], ref_x)],
+    }
+
+    def mixer_ob(file, fname, variants):
+        def fn():
+            import numpy as np
+            n_checked = 0
+            for labels, edges in graphs():
+                if len(labels) > 5:
+                    continue
+                for kind in ("nx", "rx"):
+                    g = build_graph(kind, labels, edges)
+                    for vlab, build_h, ref in variants:
+                        H = build_h(g, labels)
+                        want = ref(labels, edges)
+                        got = qp.matrix(H, wire_order=labels) if len(H.terms()[0]) else np.zeros_like(want)
+                        n_checked += 1
+                        if not np.allclose(got, want):
+                            return Outcome(REFUTED, "native", f"{fname} [{vlab}] on a {kind} graph: matrix differs from the documented operator",
+                                           witness=dict(graph_kind=kind, nodes=[str(x) for x in labels], edges=[[str(a), str(b)] for a, b in edges], variant=vlab),
+                                           replay=dict(confirmed=True, observed=f"max abs deviation {float(np.max(np.abs(got - want))):.3g}",
+                                                       expected="reference matrix from numpy.kron", note="native run of the real builder"))
+            return Outcome(DISCHARGED, "native", f"{n_checked} (graph, variant) matrices agree with the reference")
+        stem = file.split("/")[-1][:-3]
+        return Obligation(f"{PID}/{stem}:{fname}/bounded-native-mixer[graphs of <= 5 nodes, networkx + rustworkx]", "bounded", fn, bounded=True,
+                          func=(file, fname), timeout=600, sample="qp.matrix(mixer) == documented operator built with numpy.kron")
+    for (file, fname), variants in mixer_targets.items():
+        plan.add(mixer_ob(file, fname, variants))
+
+
+# ======================================================================================================================================
+# rustworkx path of edge_driver: graph_edges = sorted(graph.edge_list()) are INDEX pairs, nodes are read through graph_nodes[i]
+IEDGES = _W0.sort_of(IEDGE)
+IE0, IE1 = IEDGES.accessor(0, 0), IEDGES.accessor(0, 1)
+IESEQ = z3.SeqSort(IEDGES)
+IE_EMPTY = z3.Empty(IESEQ)
+SORTED = z3.Function("sorted_edge_list", IESEQ, IESEQ)           # sorted(edge_list): assumed a permutation of its argument
+EMAP = z3.Function("edges_as_node_pairs", LSEQ, IESEQ, ESEQ)     # [(nodes[i], nodes[j]) for (i, j) in index_pairs]   (snoc-defined)
+
+
+def emap_def(ns, s, ij):
+    return [EMAP(ns, IE_EMPTY) == E_EMPTY, EMAP(ns, snoc(s, ij)) == snoc(EMAP(ns, s), MKEDGE(ns[IE0(ij)], ns[IE1(ij)]))]
+
+
+def in_range(ij, ns):
+    n = z3.Length(ns)
+    return z3.And(IE0(ij) >= 0, IE0(ij) < n, IE1(ij) >= 0, IE1(ij) < n)
+
+
+def real_rx_graph(f):
+    import rustworkx as rx
+    g = rx.PyGraph()
+    g.add_nodes_from(list(f["_nodes"]))
+    g.add_edges_from([(int(a), int(b), "") for a, b in f["_edge_list"]])
+    return g
+
+
+def add_edge_driver_rx(plan, tier):
+    def m_sorted(it, args, kw):
+        (v,) = args
+        if isinstance(v, SeqV) and not kw and it.world.sort_of(v.elem) == IEDGES:
+            it.ctx.assume(z3.Length(SORTED(v.term)) == z3.Length(v.term))
+            return SeqV(SORTED(v.term), v.elem)
+        return it.b_sorted(args, kw, None)
+    w = cost_world(extra={"sorted": m_sorted})
+    w.stub_realize["PyGraph"] = real_rx_graph
+    PG = RecT("PyGraph")
+
+    def wf(a):
+        if isinstance(a.graph, Rec):
+            el, ns = a.graph.f["_edge_list"].term, a.graph.f["_nodes"].term
+            k = z3.Int("k!wf")
+            return z3.ForAll([k], z3.Implies(z3.And(k >= 0, k < z3.Length(el)), in_range(el[k], ns)))
+        n = len(a.graph.nodes())
+        return list(a.graph.node_indices()) == list(range(n)) and all(0 <= i < n and 0 <= j < n for i, j in a.graph.edge_list())
+
+    def repair(rng, m):
+        m = dict(m)
+        g = dict(m["graph"])
+        nodes = []
+        for x in g["_nodes"]:
+            if x not in nodes:
+                nodes.append(x)
+        n = len(nodes)
+        g["_nodes"] = nodes
+        g["_edge_list"] = [(int(a) % n, int(b) % n) for a, b in g["_edge_list"]] if n else []
+        m["graph"] = g
+        return m
+
+    def rx_case(reward):
+        table = energy_table(reward)
+
+        def parts(o):
+            ns = o.graph.f["_nodes"].term
+            s = SORTED(o.graph.f["_edge_list"].term)
+            return ns, s
+
+        def ens(o, r, nw):
+            if isinstance(o.graph, Rec):
+                if not isinstance(r, Rec):
+                    return False
+                ns, s = parts(o)
+                rc, ro = lc_terms(w, r)
+                return z3.And(EV(rc, ro, o.bits.term) == edge_objective(table, EMAP(ns, s), o.bits.term), z3.Length(rc) == z3.Length(ro))
+            nodes = list(o.graph.nodes())
+            n00, nmx, n11 = colour_counts_native([(nodes[i], nodes[j]) for i, j in o.graph.edge_list()], o.bits)
+            return close(native_ev(r, o.bits), float(table[0] * n00 + table[1] * nmx + table[2] * n11))
+
+        def inv(v):
+            ns, s = parts(v.old)
+            cs, os_ = st(w, v.coeffs, Float), st(w, v.ops, OPT)
+            return z3.And(EV(cs, os_, v.old.bits.term) == edge_objective(table, EMAP(ns, z3.Extract(s, 0, v._i0)), v.old.bits.term),
+                          z3.Length(cs) == z3.Length(os_))
+
+        def ax(v):
+            ns, s = parts(v.old)
+            b = v.old.bits.term
+            i = to_int_term(v._i0)
+            out = ev_unfold(st(w, v.coeffs, Float), st(w, v.ops, OPT), b)
+            out += [z3.Extract(s, 0, 0) == IE_EMPTY, EMAP(ns, IE_EMPTY) == E_EMPTY] + count_defs(E_EMPTY, MKEDGE(ns[0], ns[0]), b)[:3]
+            for k in (i - 1, i):
+                ok = z3.And(k >= 0, k < z3.Length(s))
+                pre = z3.Extract(s, 0, k)
+                out.append(snoc_slice(s, k))
+                out.append(z3.Implies(ok, in_range(s[k], ns)))      # instance of: sorted(edge_list) is a permutation of edge_list + precondition
+                out.append(z3.Implies(ok, emap_def(ns, pre, s[k])[1]))
+                out.append(z3.Implies(ok, z3.And(*count_defs(EMAP(ns, pre), MKEDGE(ns[IE0(s[k])], ns[IE1(s[k])]), b)[3:])))
+            return out
+        c = Case("rustworkx graph of any size, reward={" + ",".join(reward) + "}: diagonal == sum over edges of (|reward|/4 - [colouring in reward])",
+                 {"graph": PG, "reward": reward_param(reward), "bits": SetT(Label)}, requires=wf, ensures=ens, must_return=lambda o: True,
+                 axioms=lambda o, r, nw: [z3.Extract(parts(o)[1], 0, z3.Length(parts(o)[1])) == parts(o)[1]],
+                 loops={0: LoopSpec(inv, types={"coeffs": SeqT(Float), "ops": SeqT(OPT)}, axioms=ax)}, kwargs_map=GHOST, native_gen=repair,
+                 native_call=lambda mod, a: mod.edge_driver(a["graph"], list(a["reward"])))
+        c.interp_cls = QInterp
+        return c
+    fc = GhostFn(w, "edge_driver", [rx_case(r) for r in (["00"], ["10", "01"], ["10", "01", "00"], ["11", "10", "01"])])
+    for ob in obligations_for(PID, fc, tier):
+        plan.add(ob)
+    s, ns = z3.Const("s", IESEQ), z3.Const("ns", LSEQ)
+    n = z3.Int("n")
+    plan.add(lemma("seq/snoc-slice[index pairs]", [s, n], snoc_slice(s, n)))
